@@ -19,6 +19,7 @@ func init() {
 }
 
 func runC14(r *engine.Run) {
+	r.Rule("FRESH-decodebuf", "CreateNode hands the node decoders bytes of its own (the result of io/ioutil.ReadAll, a fresh slice), never a view of the reader's memory (bytes.Buffer.Next/Bytes): the decoders keep sub-slices of their input as the node's prefix, path and keys - the inputs of its hash -, and a caller's receive buffer is reused while the node lives")
 	r.Rule("KEY-own-hash", "at every write site of a node store the key is the hash of the very node value written: insertNode (stamp, hash, put), UpdateChanges (keys[i] = GetHashBytes(nodes[i])), PNodeDB.PutNode/MultiPutNode (Encode() of the given node under the given key), MemoryNodeDB.putNode and LevelNodeDB.putNode (given key and node passed on unchanged)")
 	r.Rule("COPY-value", "the stored value wrapper hands out and takes in copies: SecureSerializableValue.MarshalMsg returns a buffer that does not alias its own, UnmarshalMsg keeps a buffer that does not alias its argument (a reader or writer that reuses its slice must not change a node behind its hash)")
 	r.Rule("AGREE-lockstep", "MergeState builds the key list and the node list in lock step: every block that appends to or resets one of them does the same to the other, so that keys[i] always belongs to nodes[i] when they are handed to MultiPutNode")
@@ -58,6 +59,7 @@ func runC14(r *engine.Run) {
 	whoLimit(r, "WHO-limit")
 	whoTombstones(r, "WHO-tombstones")
 	cloneComplete(r, "CLONE-complete")
+	freshDecodeBuf(r, "FRESH-decodebuf")
 }
 
 func keyOwnHash(r *engine.Run) {
@@ -67,7 +69,7 @@ func keyOwnHash(r *engine.Run) {
 	orderKeySave(sub)
 	whoBatch(sub)
 	for _, o := range sub.Obs {
-		if strings.Contains(o.Construct, "keys[i]=hash(nodes[i])") || strings.Contains(o.Construct, "key/value") {
+		if strings.Contains(o.Construct, "keys[i]=hash(nodes[i])") || strings.Contains(o.Construct, "key/value") || strings.Contains(o.Construct, "every change saved") {
 			o.Rule = rule
 			r.Obs = append(r.Obs, o)
 		}
